@@ -48,11 +48,20 @@ type FuncContract struct {
 	External  bool // contract lives in /verif/contracts/external
 	NoSafety  bool
 	Asserts   []*AssertSpec
+	TypeReqs  []TypeReq // static type facts required of arguments (decided by go/types)
 	Defines   []*Clause // definitional abstractions: assumed at call sites, not proved (listed as assumptions)
 	Decreases []Expr
 	File      string
 	Line      int
 	Opts      map[string]string
+}
+
+// TypeReq: the static type of the value passed for Param must implement Iface.
+type TypeReq struct {
+	Label string
+	Props []string
+	Param string
+	Iface string
 }
 
 // AssertSpec: an obligation at a program point, identified by the source text
@@ -119,7 +128,7 @@ var stmtKeywords = map[string]bool{
 	"spec": true, "pred": true, "lemma": true, "axiom": true, "func": true, "interface": true, "functype": true,
 	"prop": true, "mode": true, "requires": true, "ensures": true, "panics": true, "modifies": true,
 	"decreases": true, "loop": true, "invariant": true, "closure": true, "trusted": true, "inline": true,
-	"assert": true, "defines": true, "lift": true, "using": true, "opt": true, "nosafety": true, "induction": true, "opaque_spec": true, "opaque_pred": true,
+	"assert": true, "defines": true, "lift": true, "requires_impl": true, "using": true, "opt": true, "nosafety": true, "induction": true, "opaque_spec": true, "opaque_pred": true,
 }
 
 type stmt struct {
@@ -331,6 +340,16 @@ func (cs *Contracts) loadContractFile(path, importPath string, external bool) er
 			} else if curLemma != nil {
 				curLemma.Using = append(curLemma.Using, us...)
 			}
+		case "requires_impl":
+			if curF == nil {
+				return fmt.Errorf("%s:%d: requires_impl outside func", path, s.line)
+			}
+			props, label, rest := parseTag(s.rest)
+			f := strings.Fields(rest)
+			if len(f) != 2 {
+				return fmt.Errorf("%s:%d: requires_impl [label] param pkg.Iface", path, s.line)
+			}
+			curF.TypeReqs = append(curF.TypeReqs, TypeReq{Label: label, Props: props, Param: f[0], Iface: f[1]})
 		case "lift":
 			if curF == nil {
 				return fmt.Errorf("%s:%d: lift outside func", path, s.line)
